@@ -1,15 +1,15 @@
 package main
 
 import (
-	"syscall"
-	"context"
 	"bytes"
+	"context"
 	"encoding/json"
 	"fmt"
 	"math/rand"
 	"net"
 	"strings"
 	"sync"
+	"syscall"
 	"time"
 
 	"go.amzn.com/verifharness/vh"
@@ -24,14 +24,14 @@ import (
 func init() { register("C07", genC07) }
 
 type c07Desc struct {
-	Salt    string     `json:"salt"`
-	NExt    int        `json:"extensions"`
-	Faulty  int        `json:"faulty_generations"`
-	Rt      [][]string `json:"runtime_programs"`
-	Ext     [][][]string `json:"extension_programs"` // per extension, per faulty generation
+	Salt    string         `json:"salt"`
+	NExt    int            `json:"extensions"`
+	Faulty  int            `json:"faulty_generations"`
+	Rt      [][]string     `json:"runtime_programs"`
+	Ext     [][][]string   `json:"extension_programs"` // per extension, per faulty generation
 	Delays  map[string]int `json:"hook_delay_ms"`
-	T       int64      `json:"timeout_ms"`
-	EventKB int        `json:"event_kib,omitempty"` // pad every event to this size (needed by the step next-noread)
+	T       int64          `json:"timeout_ms"`
+	EventKB int            `json:"event_kib,omitempty"` // pad every event to this size (needed by the step next-noread)
 }
 
 var c07RtSteps = []string{"next", "next", "next", "respond", "respond", "respond-stale", "respond-garbage", "respond-twice", "respond-oversize", "error", "error-badtype", "initerror", "restorenext", "two-next", "half-body", "half-body-stall", "unknown-route", "bad-method", "ext-register", "stall", "short-stall", "exit0", "exit1", "sigsegv", "ignore-term"}
